@@ -154,6 +154,7 @@ class C19(PropCheck):
         for b in range(0, 256, 1 if thorough else 5):
             out.append((f"urlpa aafe10{b:02x}", "url-txpower"))
             out.append((f"urlpaset aafe10e7 {b:02x}", "url-txpower"))
+        out.append(("urlinit", "url-txpower"))
         out += [("urlpaset aafe10e7 -", "url-txpower"), ("urlpa aafe10", "url-txpower"),
                 ("urlpa -", "url-txpower")]
         for u in (0, 1, 0x1809, 0x180F, 0xFEAA, 0xFFFF, 0x10000, -1, 0x1234):
@@ -478,6 +479,10 @@ class C19(PropCheck):
         elif op == "batdec":
             if so != "none" and io != so:
                 return Finding(line, f"battery bytes {a[0]} hold {so}, the getter returns {io}", {"class": "battery"})
+        elif op == "urlinit":
+            if io != "aafe10e7":
+                return Finding(line, f"a fresh UrlServiceData() starts with {io}: documented is the Eddystone UUID 0xFEAA, frame type "
+                                     "0x10 (URL) and pa_level_at_1_meter = -25 dBm", {"class": "url-init"})
         elif op == "urlenc":
             if so is None:
                 so = io
